@@ -129,6 +129,16 @@ func init() {
 				ps, _ := L.Kust["patches"].([]interface{})
 				for _, p := range ps {
 					po, _ := p.(Obj)
+					if _, isS := po["patch"].(string); isS && po["target"] != nil && r.Intn(3) == 0 {
+						// a target whose name is a pattern: it may select several resources (the name family app, app-1, app2, …) — under
+						// either spelling (the deprecated one insists on SOME name, so the name stays)
+						if tg, ok := po["target"].(Obj); ok {
+							if nm, ok := tg["name"].(string); ok && nm != "" {
+								tg["name"] = nm + ".*"
+								delete(tg, "kind")
+							}
+						}
+					}
 					if txt, isS := po["patch"].(string); isS && po["target"] != nil && strings.HasPrefix(txt, "- op:") && r.Intn(2) == 0 {
 						po["patch"] = txt + "- op: add\n  path: /metadata/annotations/jp2\n  value: " + pickS(r, []string{"yes", "on", "off", "n", "\"yes\"", "1_000"}) + "\n"
 					}
